@@ -1645,7 +1645,13 @@ func (g *gState) genOps(tier string) []Op {
 		g.keyCtr++
 		k := g.keyCtr
 		if r.Chance(1, 8) && len(g.impKeys) > 0 {
-			k = g.impKeys[r.Intn(len(g.impKeys))].Key // duplicate
+			// a duplicate import, into the SAME scope (refused).  The same key is
+			// never imported into two scopes: P2PKH and P2WPKH addresses of one key
+			// share their script address, Manager.Address walks the scoped managers
+			// in Go map order, and which of the two imported addresses it returns
+			// would then differ from run to run.
+			dup := g.impKeys[r.Intn(len(g.impKeys))]
+			k, sc = dup.Key, dup.Scope
 		}
 		out = append(out, Op{Op: "importkey", Scope: sc, Key: k})
 		if !g.locked && k == g.keyCtr {
